@@ -2,6 +2,7 @@ import Solvor.Common.Proto
 import Solvor.Graph.Model
 /-! Graph: line-protocol handler (C14).
 
+request `["big", nodes, table]` → `[closed, mScc, mTopo|null, mCadj]` (mirrors only, see below), and
 request `["case", nodes, table, scc, topo, cond]`
   nodes : node list (naturals, iteration order of the `nodes` iterable)
   table : `[[v, [w, …]], …]` – the neighbour list of every vertex the neighbour function is
@@ -75,6 +76,20 @@ def handle (line : String) : String :=
         -- harness can refuse to run (infrastructure failure) if the universe were ever built wrongly;
         -- it takes no part in any verdict and does not affect `closed` above
         Val.bool (closedB U adj && nodes.all fun v => U.contains v)]).render
+    | _, _ => err "bad arguments"
+  | some ("big", [nodes, table]) =>
+    -- large closed graphs: only the mirrors (proved correct for every input: `tarjan_correct_closed`,
+    -- `kahn_correct`, `condense_correct`); the harness compares the returned values with them
+    match nodes.toNats?, parseTable table with
+    | some nodes, some tbl =>
+      let arr := tbl.toArray
+      -- the harness sends the table of a large graph indexed by vertex (`table[v] = [v, nbrs]`)
+      let adj : Adj := fun v => match arr[v]? with
+        | some p => if p.1 == v then p.2 else []
+        | none => []
+      let mScc := tarjan nodes nodes adj
+      (Val.arr [Val.bool (closedB nodes adj), Val.ofNatss mScc, Val.ofOpt Val.ofNats (kahn nodes adj),
+        Val.ofNatss (condEdges nodes adj mScc)]).render
     | _, _ => err "bad arguments"
   | _ => err "bad request"
 
